@@ -80,7 +80,16 @@ func (r *RecTB) classify(kind string, s string) F {
 		f["class"] = "ffignore"
 		f["names"] = s
 	case reTestHdr.MatchString(s):
-		f["class"] = "testhdr"
+		m := reTestHdr.FindStringSubmatch(s)
+		f["n"], _ = strconv.Atoi(m[1])
+		if m[3] != "" {
+			f["class"] = "teststart"
+			u, _ := strconv.ParseUint(m[3], 10, 64)
+			f["seedw"] = W(u)
+		} else {
+			f["class"] = "testend"
+			f["res"] = strings.ToLower(m[2])
+		}
 	case strings.HasPrefix(s, "[rapid] trying to "):
 		f["class"] = "trying"
 	case strings.HasPrefix(s, "[rapid] "):
